@@ -22,7 +22,7 @@ InfC == 1073741824
 TermTime == Cfg.term
 
 VARIABLES msg, hist, base, ckpt, owner, rb, cpos, cheld, termT, gvtSeen, gvtCnt, gvtVals, finiLp, finiQ, votes,
-          stopped, exited, hand,
+          stopped, exited, hand, voted, maxDecl, mustVote,
           l,       \* next trace line
           bad,     \* failed checks of the step that failed first
           expect   \* thr -> message that the thread must re-insert next (0: none)
@@ -30,9 +30,9 @@ VARIABLES msg, hist, base, ckpt, owner, rb, cpos, cheld, termT, gvtSeen, gvtCnt,
 TW == INSTANCE TimeWarp WITH NThreads <- NThreadsC, NLp <- NLpC, Inf <- InfC
 
 twvars == <<msg, hist, base, ckpt, owner, rb, cpos, cheld, termT, gvtSeen, gvtCnt, gvtVals, finiLp, finiQ, votes,
-            stopped, exited, hand>>
+            stopped, exited, hand, voted, maxDecl, mustVote>>
 tvars == <<msg, hist, base, ckpt, owner, rb, cpos, cheld, termT, gvtSeen, gvtCnt, gvtVals, finiLp, finiQ, votes,
-           stopped, exited, hand, l, bad, expect>>
+           stopped, exited, hand, voted, maxDecl, mustVote, l, bad, expect>>
 
 \* sequential delivery history of every LP (LP_INIT excluded)
 Ref == [p \in TW!LpSet |-> SelectSeq(RefLog, LAMBDA x : x.e = "Disp" /\ x.lp = p /\ x.ty # 65534)]
@@ -79,7 +79,7 @@ NoExpect == <<expect[R] = 0, "C06", "a message that had to be re-inserted into a
 
 TSend == IsEvent("Send") /\ Step(<<Known(Line.m), NoExpect>> \o TW!SendChecks(R, Line.lp, Line.m), TW!Send(R, Line.lp, Line.m)) /\ UNCHANGED expect
 TDrain == IsEvent("Drain") /\ Step(TW!DrainChecks(R, Line.k), TW!Drain(R, Line.k)) /\ UNCHANGED expect
-TExtract == IsEvent("Extract") /\ Step(<<Known(Line.m), NoExpect>> \o TW!ExtractChecks(R, Line.m), TW!Extract(R, Line.m)) /\ UNCHANGED expect
+TExtract == IsEvent("Extract") /\ Step(<<Known(Line.m), NoExpect, TW!NoPendingVote(R)>> \o TW!ExtractChecks(R, Line.m), TW!Extract(R, Line.m)) /\ UNCHANGED expect
 
 FlagsAgree(m, old) == <<TW!Live(m) => msg[m].flags = old, "DIV", "flag word read by the code differs from the reconstructed one">>
 
@@ -147,7 +147,7 @@ TFossil ==
 
 TFree == IsEvent("Free") /\ Step(<<Known(Line.m)>> \o TW!FreeChecks(R, Line.m), TW!Free(R, Line.m)) /\ UNCHANGED expect
 
-TGvt == IsEvent("Gvt") /\ Step(TW!GvtChecks(R, Line.val), TW!Gvt(R, Line.val)) /\ UNCHANGED expect
+TGvt == IsEvent("Gvt") /\ Step(<<TW!NoPendingVote(R)>> \o TW!GvtChecks(R, Line.val), TW!Gvt(R, Line.val)) /\ UNCHANGED expect
 
 TTermLp ==
   /\ IsEvent("TermLp")
@@ -158,7 +158,7 @@ TTermLp ==
 TTermUndo == IsEvent("TermUndo") /\ Step(<<>>, TW!TermUndo(R, Line.lp, Line.keep = 1)) /\ UNCHANGED expect
 TVote == IsEvent("Vote") /\ Step(TW!VoteChecks(R, Line.gvt, TermTime), TW!Vote(R, Line.gvt)) /\ UNCHANGED expect
 TStop == IsEvent("Stop") /\ Step(<<>>, TW!Stop) /\ UNCHANGED expect
-TLoopExit == IsEvent("LoopExit") /\ Step(<<NoExpect>> \o TW!LoopExitChecks(R, TermTime), TW!LoopExit(R)) /\ UNCHANGED expect
+TLoopExit == IsEvent("LoopExit") /\ Step(<<NoExpect, TW!NoPendingVote(R)>> \o TW!LoopExitChecks(R, TermTime), TW!LoopExit(R)) /\ UNCHANGED expect
 
 TFiniStage ==
   /\ IsEvent("Fini")
